@@ -69,14 +69,14 @@ PROPS = {
     "C08": dict(
         rig="WD", runs=dict(quick=3000, thorough=100000),
         nontrivial_probes=["stale_operation", "stale_operation_newer_incarnation_present", "applied_op", "applied_api"],
-        must_hit=["stale_operation", "stale_operation_newer_incarnation_present", "applied_op", "applied_api"],
+        must_hit=["stale_operation", "stale_operation_newer_incarnation_present", "applied_op", "applied_api", "drop_completed_before_request_executed"],
         rule="Seeded source histories (8-26 create/drop/re-create events on databases, collections, partitions plus op messages of every kind), a start point with a start-up snapshot of dropped objects and a replayed op-message prefix, API events and op messages delivered by two concurrent streams whose relative progress the scheduler chooses (drops may overtake older operations), injected downstream rejections with re-delivery.",
         assumptions=["rig WD: real ChannelWriter (HandleOpMessagePack, HandleReplicateAPIEvent, readiness cascade, getObjState) over a simulated downstream catalog that tags every object with the source incarnation that created it", "an operation is only delivered after the creation of the objects it refers to was handled; the start-up snapshot is built as the property C15 describes it"],
     ),
     "C09": dict(
         rig="WD", runs=dict(quick=3000, thorough=100000),
         nontrivial_probes=["mapped_call", "exact_and_wildcard_mapping"],
-        must_hit=["mapped_call", "exact_and_wildcard_mapping"],
+        must_hit=["mapped_call", "exact_and_wildcard_mapping", "drop_completed_before_request_executed"],
         rule="Same histories as C08, always with a name mapping (exact, whole-database, both for one source database, unrelated), source database default / empty / other, Map.Range iteration order chosen per run through the verif hook; every downstream call (18 op kinds, 4 API events, 3 readiness probes) is compared with the reference mapping. The 5 DML message types are covered by the C07 check (same mapping function, same shapes).",
         assumptions=["rig WD: see C08", "for database-level operations on a source database that has only collection-level entries the property does not fix the target name: the source name and the target database of any such entry are accepted"],
     ),
